@@ -25,6 +25,9 @@ func main() {
 		noEv     = flag.Bool("no-evidence", false, "do not write evidence files")
 		listOnly = flag.Bool("list", false, "list properties and rules")
 		sweep    = flag.Bool("rename-sweep", false, "run the rename sweep for the given properties (development aid)")
+		mutSweep = flag.Bool("mutation-sweep", false, "run the mutation sweep over the anchored packages for the given properties (development aid)")
+		chunk    = flag.String("chunk", "", "i/n: part of the mutation sweep to run")
+		mutOnly  = flag.String("mut-only", "", "restrict the mutation sweep to functions/files containing this text")
 	)
 	flag.Parse()
 	if *listOnly {
@@ -86,6 +89,10 @@ func main() {
 	}
 	fmt.Printf("bsvet: loaded %d module packages + %d dependencies from %s in %.1fs (%d baseline type errors)\n",
 		len(pr.Order), deps.NExt, *root, loadS, len(pr.TypeErrs))
+	if *mutSweep {
+		runMutationSweep(deps, pr, ids, kf, *chunk, *mutOnly)
+		return
+	}
 	exit := 0
 	for _, id := range ids {
 		p := properties[id]
